@@ -5,29 +5,44 @@ import os
 
 V = os.path.dirname(os.path.dirname(os.path.abspath(__file__)))
 CLAIMED = {
-    "C01": ("Coq theorems C01_lower_bound/C01_attained: the DTW model is the minimum over admissible warping paths for "
-            "all lengths and settings; tie to dtw.distance: band/buffer expressions regenerated from dtw.py and proved "
-            "equal to the model's (BandTie.v) + correspondence of dtw.distance with the extracted model",
-            "exact integer arithmetic; the rolling-buffer loop skeleton is tied by correspondence, not proved",
-            "Coq proof (grid-DP optimality) + regenerated definitions + model/implementation correspondence"),
-    "C02": ("Coq theorem C02_off_encodings_commute: the Python->C settings hand-over preserves the model value for every "
-            "setting expressible in both engines (max_length_diff=0 refuted by witness); both engines are checked "
-            "against the same extracted model and against each other",
-            "C loop skeleton tied by correspondence only; float stream compared within 4 ulps, rounding not modelled",
-            "Coq proof (settings decoding commutes) + engine-vs-engine and engine-vs-model correspondence"),
-    "C04": ("Coq theorems: every cell of the model matrix is the optimum over partial paths, shape, out-of-band = inf; "
-            "dtw.warping_paths, the C full matrix, compact+expand and slice expansion are compared cell-wise with the "
-            "extracted model applying the property's two freedoms",
-            "C fill/expand skeletons tied by correspondence only; many C-side defects are recorded as known findings",
-            "Coq proof (cell-wise optimality) + regenerated band + correspondence"),
-    "C03": ("Coq theorems (partial): any pruning that skips only cells whose optimum exceeds the bound computes all cells "
-            "below the bound exactly (prune_sound), the returned value is 'd if d<=m else inf', and the Euclidean bound "
-            "never cuts the distance where ED is a valid upper bound; the implementation's max_dist/use_pruning results "
-            "(py/C distance, warping_paths, distance matrices) are compared with that expectation computed by the "
-            "extracted model",
-            "partial: that the sc/ec bookkeeping only skips such cells is correspondence, not proof; F06/F07/F05/F27 "
-            "are recorded findings",
-            "Coq proof (PrunedDTW soundness core) + correspondence"),
+    "C01": ("Coq theorems C01_lower_bound/C01_attained: the DTW model is the minimum over admissible warping "
+            "paths for all lengths and settings; C01_code_model_is_spec: the model of dtw.distance AS WRITTEN "
+            "(two rolling rows, per-row offset, psi prologue/end scans; index arithmetic regenerated from dtw.py) "
+            "equals that specification for every input with window >= 1 (refinement proof PyDistProofs.v); tie to "
+            "the code: regenerated expressions (BandTie.v) + correspondence of dtw.distance with both extracted "
+            "models",
+            "exact integer arithmetic; the hand-written loop skeleton of the as-written model is tied to the code "
+            "by correspondence",
+            "Coq proof (grid-DP optimality + rolling-buffer refinement) + regenerated definitions + "
+            "model/implementation correspondence"),
+    "C02": ("Coq theorems: C02_off_encodings_commute (the Python->C settings hand-over preserves the model value "
+            "for every setting expressible in both engines; max_length_diff=0 refuted by witness) and "
+            "C02_c_kernels_same_band_and_buffer (band, buffer length and per-row offset of the four C kernels, "
+            "regenerated from dd_dtw.c, equal the specification band and the geometry regenerated from dtw.py); "
+            "both engines are checked against the same extracted models and against each other",
+            "cell update and pruning bookkeeping of the C kernels tied by correspondence; float stream compared "
+            "within 4 ulps, rounding not modelled",
+            "Coq proof (settings decoding commutes; C index arithmetic = model band) + regenerated definitions "
+            "(Python and C) + engine-vs-engine and engine-vs-model correspondence"),
+    "C04": ("Coq theorems: every cell of the model matrix is the optimum over partial paths, shape, out-of-band = "
+            "inf; C04_code_matrix_is_spec / _with_bound / _code_value: dtw.warping_paths AS WRITTEN (PyWps.v) "
+            "equals the specification matrix cell by cell, and with a bound every cell is equal or both exceed "
+            "the bound; dtw.warping_paths is compared with the as-written model on every cell, the C full matrix, "
+            "compact+expand and slice expansion cell-wise with the specification model applying the property's "
+            "two freedoms",
+            "C fill/expand skeletons tied by correspondence only; remaining C-side defects are recorded as known "
+            "findings",
+            "Coq proof (cell-wise optimality + refinement of the as-written Python routine) + regenerated band + "
+            "correspondence"),
+    "C03": ("Coq theorems: any pruning that skips only cells whose optimum exceeds the bound computes all cells "
+            "below the bound exactly (prune_sound); C03_pruned_code_model_exact: the "
+            "sc/ec/ec_next/smaller_found/break bookkeeping of dtw.distance AS WRITTEN returns 'd if d<=B else "
+            "inf' for every bound B and every setting (PyDistPrune.v); the Euclidean bound never cuts the "
+            "distance where ED is a valid upper bound; the implementation's max_dist/use_pruning results (py/C "
+            "distance, warping_paths, distance matrices) are compared with the specification and, for the single- "
+            "pair routines of both engines, with the as-written model",
+            "bookkeeping of the C warping-paths kernels: abstract theorem + correspondence; F05 recorded finding",
+            "Coq proof (PrunedDTW: abstract soundness + refinement of the as-written routine) + correspondence"),
     "C09": ("Coq theorems C09_lb_keogh_le_dtw and C09_dtw_le_euclidean for all series/windows/penalties; lb_keogh_model "
             "uses the index arithmetic regenerated from dtw.lb_keogh; ed.distance/ed_cc/lb_keogh (py and C) compared "
             "with the extracted models; the sandwich re-checked on implementation values",
